@@ -269,7 +269,9 @@ def c17_worker(job, acc):
 # =============================================================================================== C13 grid + shadow
 
 WH_SETS = [[("08:00", "12:00")], [("08:13", "11:59"), ("13:07", "17:47")], [("22:00", "06:00")], [("00:00", "00:00")], [("12:00", "12:00")],
-           [("23:59", "00:01")], [("00:00", "23:59")], [("09:00", "12:00"), ("12:00", "15:00")], [("06:00", "02:00"), ("03:00", "04:00")]]
+           [("23:59", "00:01")], [("00:00", "23:59")], [("09:00", "12:00"), ("12:00", "15:00")], [("06:00", "02:00"), ("03:00", "04:00")],
+           # interval lists that are NOT in chronological order (source order is kept by the parser): seeded change C13-a
+           [("13:00", "17:00"), ("08:00", "12:00")], [("08:00", "12:00"), ("22:00", "06:00")], [("15:00", "16:00"), ("09:00", "10:00"), ("12:00", "13:00")]]
 WH_DAYS = [["mon"], ["mon", "tue", "wed", "thu", "fri"], ["sat", "sun"], ["fri"], ["sun"], ["mon", "wed", "sun"], ["mon", "tue", "wed", "thu", "fri", "sat", "sun"]]
 
 
